@@ -29,5 +29,11 @@ TEXT = {
    text="Lean theorems: encode hrp d = ok r IFF (non-empty, single-case, bytes 33..126, len(hrp)+ceil(8n/5)+7 <= 90) and r = the BIP-173 string (to5 d ++ the unique verifying 6-symbol checksum over lower(hrp), in hrp's case); "
         "decode(encode hrp d) = ok(lower hrp, d); otherwise an error (empty / over-long / mixed-case / non-printable each stated). Correspondence: all data lengths 0..52 x prefix lengths straddling the 90 limit, invalid prefixes, random cases.",
    note="Trusted: Lean kernel; extractor+harness; Go strings case functions modelled on printable ASCII."),
+ "C19": dict(ref="DESIGN.md §5 C19",
+   technique="Lean 4 proof (ParseBech32/Bech32 over the proved Bech32 model; migration codec over the proved b1t6 model, for an arbitrary hash) with regenerated-fact tie and differential correspondence",
+   text="Lean theorems: ParseBech32(Bech32(p,a)) = (p,a) for the four prefixes and three address kinds; ParseBech32 s = ok(p,a) implies Valid Bech32 with hrp = prefix p, version in {0,8,16}, payload length 32/20/20 and "
+        "Bech32(p,a) = lower(s); migration.Decode(Encode a) = a for every 32-byte a and every hash with >= 4 output bytes; migration.Decode t = ok a implies t = Encode a (81 trytes). "
+        "Correspondence: every version byte 0..255 x payload lengths, all prefixes, corrupted addresses, every single-tryte substitution of sampled migration strings.",
+   note="Trusted: Lean kernel; extractor+harness; BLAKE2b is an arbitrary function in the theorems and a Lean oracle in the driver; inherits the C04/C05/C14 assumptions. No-panic observed by correspondence (total model)."),
 }
 PENDING = {}
